@@ -85,12 +85,16 @@ def main(pid, tier):
   extra = {"VERIF_KF_EXCLUDE": ",".join(sorted(known))} if known else None
   res = e1.run_jobs(pid, tier, jobs, cfg_dir, seed, extra_env=extra)
   harness_errors += res.harness_errors
+  for j in jobs:
+    if res.empty.get(j.name, 0) and not res.confirmed.get(j.name, 0) and not res.violations:
+      harness_errors.append("job %s: every finished shard was empty" % j.name)
   evaluations, distinct, nontrivial, samples = e1.summarize_records(res.records)
   workers = [w for w in res.shards if not w["twin"]]
   confirmed = sum(
       1 for w in workers
       if w.get("messages") and not w.get("error") and
-      all(m["state"] == "CONFIRMED" for m in w["messages"]))
+      all(m["state"] in ("CONFIRMED", "PRE_UNSAT") for m in w["messages"]))
+  empty_shards = sum(res.empty.values())
   queries = sum(w.get("z3", {}).get("checks", 0) for w in res.shards)
   solver_s = sum(w.get("z3", {}).get("solver_s", 0.0) for w in res.shards)
   meta = spec.meta(tier)
@@ -103,7 +107,8 @@ def main(pid, tier):
         "shards": j.shards, "per_shard_timeout_s": j.timeout,
         "shards_confirmed": sum(
             1 for w in ws if w.get("messages") and not w.get("error") and
-            all(m["state"] == "CONFIRMED" for m in w["messages"])),
+            all(m["state"] in ("CONFIRMED", "PRE_UNSAT") for m in w["messages"])),
+        "shards_empty": res.empty.get(j.name, 0),
         "paths": sum(d.values()), "distinct_inputs": len(d),
         "cpu_wall_s": round(sum(w["wall_s"] for w in ws), 1),
         "note": j.note}
@@ -122,6 +127,7 @@ def main(pid, tier):
       "samples": samples,
       "obligations": len(workers) + res.twins,
       "discharged": confirmed + res.twins_ok,
+      "empty_shards": empty_shards,
       "reachability_twins_refuted": "%d/%d" % (res.twins_ok, res.twins),
       "queries": queries,
       "solver_s": round(solver_s, 1),
